@@ -702,6 +702,9 @@ var scenarios = [][]string{
 	// a further pipelined call arrives while the queue of an answer is being drained (the first
 	// queued delivery not acknowledged yet): it must not overtake the queued ones
 	{"B0", "C1,i0,10/s:/-,1,1,1", "C2,a1:f0,10/s:/-,1,1,2", "C3,a1:f0,10/s:/-,1,1,3", "Wa1^r0,s:l1^C4,a1:f0,10/s:/-,1,1,4", "r1,0", "r2,0", "r3,0"},
+	// the last local reference of an import goes; while its Release is being written a Return names the
+	// same import id again: the new client is a new import (own entry, own Release), not the dying one
+	{"b", "b", "R0,0,r10/c0/h5", "Wl^l0^R1,0,r10/c0/h5", "c1,-,7", "R0,0,r10/s:/-", "l1", "b"},
 	// finish before return, release of result caps, repeated bootstrap (wire refs of one export)
 	{"B0", "B1", "B2", "F0,1", "F1,0", "L0,1", "C3,a2:-,10/s:/-,1,1,1", "F3,1", "r0,s:l0.l0.l1", "F2,1"},
 	// cancel, then the Return of the canceled question; id reuse
